@@ -2,6 +2,31 @@
 //! false, so "no allocation on any path for any input within the bound" is a reachability verdict of the solver.
 #![allow(dead_code, unused_imports)]
 #[cfg(kani)]
+macro_rules! hash_no_alloc {
+    ($name:ident, |$e:ident, $symtab:ident, $strtab:ident, $q:ident| $body:block) => {
+        #[kani::proof]
+        #[kani::stub(std::alloc::alloc, no_alloc)]
+        #[kani::stub(std::alloc::alloc_zeroed, no_alloc)]
+        #[kani::stub(std::alloc::realloc, no_realloc)]
+        #[kani::unwind(7)]
+        pub fn $name() {
+            let $e = AnyEndian::Little;
+            let mut syms = [0u8; 48];
+            w32(&mut syms, 16, kani::any());
+            w32(&mut syms, 32, kani::any());
+            let $symtab: SymbolTable<'_, AnyEndian> = ParsingTable::new($e, Class::ELF32, &syms);
+            let sb: [u8; 5] = [kani::any(), kani::any(), kani::any(), kani::any(), 0];
+            let $strtab = StringTable::new(&sb);
+            let qb: [u8; 2] = kani::any();
+            let ql: usize = kani::any();
+            kani::assume(ql <= 2);
+            let $q = &qb[..ql];
+            $body
+        }
+    };
+}
+
+#[cfg(kani)]
 pub mod z {
     use core::alloc::Layout;
     use elf::endian::{AnyEndian, EndianParse};
@@ -151,42 +176,19 @@ pub mod z {
         kani::cover!(r.is_err(), "rejected header");
     }
 
-    fn w32(buf: &mut [u8], pos: usize, v: u32) {
+    pub fn w32(buf: &mut [u8], pos: usize, v: u32) {
         let b = v.to_le_bytes();
         buf[pos] = b[0];
         buf[pos + 1] = b[1];
         buf[pos + 2] = b[2];
         buf[pos + 3] = b[3];
     }
-    fn w16(buf: &mut [u8], pos: usize, v: u16) {
+    pub fn w16(buf: &mut [u8], pos: usize, v: u16) {
         let b = v.to_le_bytes();
         buf[pos] = b[0];
         buf[pos + 1] = b[1];
     }
 
-    macro_rules! hash_no_alloc {
-        ($name:ident, |$e:ident, $symtab:ident, $strtab:ident, $q:ident| $body:block) => {
-            #[kani::proof]
-            #[kani::stub(std::alloc::alloc, no_alloc)]
-            #[kani::stub(std::alloc::alloc_zeroed, no_alloc)]
-            #[kani::stub(std::alloc::realloc, no_realloc)]
-            #[kani::unwind(7)]
-            pub fn $name() {
-                let $e = AnyEndian::Little;
-                let mut syms = [0u8; 48];
-                w32(&mut syms, 16, kani::any());
-                w32(&mut syms, 32, kani::any());
-                let $symtab: SymbolTable<'_, AnyEndian> = ParsingTable::new($e, Class::ELF32, &syms);
-                let sb: [u8; 5] = [kani::any(), kani::any(), kani::any(), kani::any(), 0];
-                let $strtab = StringTable::new(&sb);
-                let qb: [u8; 2] = kani::any();
-                let ql: usize = kani::any();
-                kani::assume(ql <= 2);
-                let $q = &qb[..ql];
-                $body
-            }
-        };
-    }
     // hash lookups on small tables with symbolic bucket / chain / bloom words, symbol names and query (ELF32 LE)
     hash_no_alloc!(sysv_find_no_alloc, |e, symtab, strtab, q| {
         // SysV: nbucket=2, nchain=3, every bucket and chain word symbolic (cycles and out-of-range links included)
@@ -203,6 +205,41 @@ pub mod z {
             kani::cover!(r.is_err(), "SysV lookup error path");
         }
     });
+    /// lazy tables, string table, notes on symbolic bytes
+    #[kani::proof]
+    #[kani::stub(std::alloc::alloc, no_alloc)]
+    #[kani::stub(std::alloc::alloc_zeroed, no_alloc)]
+    #[kani::stub(std::alloc::realloc, no_realloc)]
+    #[kani::unwind(8)]
+    pub fn views_no_alloc() {
+        let buf: [u8; 24] = kani::any();
+        let len: usize = kani::any();
+        kani::assume(len <= 24);
+        let data = &buf[..len];
+        let e = if kani::any() { AnyEndian::Little } else { AnyEndian::Big };
+        let t: SymbolTable<'_, AnyEndian> = ParsingTable::new(e, Class::ELF32, data);
+        let _ = t.get(kani::any());
+        let _ = t.iter().next();
+        let st = StringTable::new(&data[..if len > 6 { 6 } else { len }]);
+        let _ = st.get_raw(kani::any());
+        let _ = st.get(kani::any());
+        let mut ni = NoteIterator::new(e, Class::ELF64, kani::any(), data);
+        let _ = ni.next();
+    }
+}
+
+#[cfg(kani)]
+pub mod zs {
+    //! thorough tier: GNU hash lookups and symbol-version queries under the allocator stub
+    use super::z::*;
+    use elf::endian::AnyEndian;
+    use elf::file::Class;
+    use elf::gnu_symver::{SymbolVersionTable, VerDefIterator, VerNeedIterator, VersionIndexTable};
+    use elf::hash::{GnuHashTable, SysVHashTable};
+    use elf::parse::ParsingTable;
+    use elf::string_table::StringTable;
+    use elf::symbol::SymbolTable;
+
     hash_no_alloc!(gnu_find_no_alloc, |e, symtab, strtab, q| {
         // GNU: nbucket=1, symoffset, bloom size 1, shift, bloom word, bucket, two chain words: all symbolic but the counts
         let mut g = [0u8; 32];
@@ -278,27 +315,6 @@ pub mod z {
         }
     }
 
-    /// lazy tables, string table, notes on symbolic bytes
-    #[kani::proof]
-    #[kani::stub(std::alloc::alloc, no_alloc)]
-    #[kani::stub(std::alloc::alloc_zeroed, no_alloc)]
-    #[kani::stub(std::alloc::realloc, no_realloc)]
-    #[kani::unwind(8)]
-    pub fn views_no_alloc() {
-        let buf: [u8; 24] = kani::any();
-        let len: usize = kani::any();
-        kani::assume(len <= 24);
-        let data = &buf[..len];
-        let e = if kani::any() { AnyEndian::Little } else { AnyEndian::Big };
-        let t: SymbolTable<'_, AnyEndian> = ParsingTable::new(e, Class::ELF32, data);
-        let _ = t.get(kani::any());
-        let _ = t.iter().next();
-        let st = StringTable::new(&data[..if len > 6 { 6 } else { len }]);
-        let _ = st.get_raw(kani::any());
-        let _ = st.get(kani::any());
-        let mut ni = NoteIterator::new(e, Class::ELF64, kani::any(), data);
-        let _ = ni.next();
-    }
 }
 
 #[cfg(kani)]
